@@ -1,7 +1,12 @@
 /-
 Model driver for C01. Line protocol (see harness/overlay/services/keepstore/zz_verif_c01_test.go):
   c01 <vols> <reqs>
-  vols := vol ('/' vol)*            vol := flags ':' repl ':' files    flags: w|r|wf|rf
+  vols := vol ('/' vol)*            vol := flags ':' repl ':' files [':' faults]    flags: w|r|wf|rf
+  faults := fault (',' fault)*      fault := ('i'|'d'|'n'|'l') <hash32>   I/O faults of block paths (PUT path):
+       i = the planted file is immutable (Touch and replacing it fail), d = a directory sits at the block path
+       (nothing to read, rename onto it fails), n = a regular file sits where the block directory should be
+       (nothing to read, MkdirAll fails, for every hash with that 3-digit prefix), l = the block directory is
+       immutable (TempFile fails for every hash with that prefix; existing files are read and touched as usual)
   files := '-' | file (',' file)*   file := <hash32> '=' content
   content := 'x' hex* | 's' md5 '.' len '.' gen      (gen is only for the Go side)
   reqs := req (';' req)*            req := 'G:' hash [':' hint] | 'H:' hash | 'P:' hash ':' content [':nocl']
@@ -23,6 +28,7 @@ import ArvVerif.Base.MD5
 import ArvVerif.Base.Loop
 import ArvVerif.Model.C01
 import ArvVerif.Model.C01_History
+import ArvVerif.Model.C01_Fault
 open ArvVerif ArvVerif.C01
 
 structure Content where
@@ -32,6 +38,7 @@ structure Content where
 deriving DecidableEq
 
 abbrev V := Vol String Content
+abbrev FV := FVol String Content
 
 def cHash (c : Content) : String := c.md5
 def cSize (c : Content) : Nat := c.len
@@ -67,16 +74,53 @@ def filesOf (ps : List (String × Content)) : String → Option Content :=
   -- a later entry for the same hash overwrites an earlier one (as the Go driver's WriteFile does)
   fun k => (ps.reverse.find? (fun p => p.1 == k)).map (·.2)
 
-def parseVol (s : String) : Option (V × List String) :=
-  match s.splitOn ":" with
-  | [fl, r, fs] =>
+def prefix3 (h : String) : String := String.ofList (h.toList.take 3)
+
+/-- the faults field: list of (kind, hash) -/
+def parseFaults (s : String) : Option (List (Char × String)) :=
+  (s.splitOn ",").mapM (fun f =>
+    match f.toList with
+    | k :: rest =>
+      let h := String.ofList rest
+      if (k == 'i' || k == 'd' || k == 'n' || k == 'l') && isHash h then some (k, h) else none
+    | [] => none)
+
+/-- the same checks as the Go driver: fault hashes distinct; i needs its file, d and n must not have one;
+n must be alone on its prefix -/
+def faultsValid (files : List String) (fs : List (Char × String)) : Bool :=
+  let hs := fs.map (·.2)
+  hs.eraseDups.length == hs.length &&
+  fs.all (fun (k, h) =>
+    if k == 'i' then files.contains h
+    else if k == 'd' then !files.contains h
+    else if k == 'n' then
+      !(files.any (fun f => prefix3 f == prefix3 h)) &&
+      !(fs.any (fun (k', h') => h' != h && prefix3 h' == prefix3 h))
+    else true)
+
+def mkFV (v : V) (fs : List (Char × String)) : FV :=
+  { vol := v
+    noTouch := fun h => fs.any (fun (k, h') => k == 'i' && h' == h)
+    noWrite := fun h => fs.any (fun (k, h') =>
+      ((k == 'i' || k == 'd') && h' == h) || ((k == 'n' || k == 'l') && prefix3 h' == prefix3 h)) }
+
+def parseVol (s : String) : Option (FV × List String × Bool) :=
+  let parts := s.splitOn ":"
+  match parts with
+  | fl :: r :: fs :: more =>
     let flags : Option (Bool × Bool) :=
       if fl == "w" then some (false, false) else if fl == "r" then some (true, false)
       else if fl == "wf" then some (false, true) else if fl == "rf" then some (true, true) else none
-    match flags, r.toNat?, parseFiles fs with
-    | some (ro, full), some repl, some ps =>
-      some ({ ro := ro, full := full, repl := repl, files := filesOf ps }, ps.map (·.1))
-    | _, _, _ => none
+    let faults : Option (List (Char × String)) :=
+      match more with
+      | [] => some []
+      | [f] => parseFaults f
+      | _ => none
+    match flags, r.toNat?, parseFiles fs, faults with
+    | some (ro, full), some repl, some ps, some fts =>
+      if !faultsValid (ps.map (·.1)) fts then none else
+      some (mkFV { ro := ro, full := full, repl := repl, files := filesOf ps } fts, ps.map (·.1), !fts.isEmpty)
+    | _, _, _, _ => none
   | _ => none
 
 inductive Req where
@@ -121,10 +165,16 @@ def dedupSorted (ks : List String) : List String :=
     | k' :: _ => if k == k' then acc else k :: acc
     | [] => [k]) []
 
-def listing (keys : List String) (vols : List V) : String :=
+def listingV (keys : List String) (vols : List V) : String :=
   "/".intercalate (vols.map (fun v =>
     let ents := keys.filterMap (fun k => (v.files k).map (fun c => s!"{k}={c.len}.{c.md5}"))
     if ents.isEmpty then "-" else ",".intercalate ents))
+
+def listing (keys : List String) (vols : List FV) : String := listingV keys (vols.map (·.vol))
+
+/-- put changed mount contents back under their fault flags -/
+def rewrap (fvols : List FV) (vols : List V) : List FV :=
+  List.zipWith (fun fv v => { fv with vol := v }) fvols vols
 
 def emptyMD5 : String := "d41d8cd98f00b204e9800998ecf8427e"
 
@@ -150,40 +200,48 @@ def showPut (resp : PutResp) (vols' : List V) (h : String) : String :=
     else "-"
   s!"{resp.status},{repl},{fg}"
 
-def runReqs (keys : List String) : List Req → List V → Nat → List String → List String
+def runReqs (keys : List String) (faulty : List Bool) : List Req → List FV → Nat → List String → List String
   | [], _, _, acc => acc.reverse
-  | r :: rest, vols, rr, acc =>
+  | r :: rest, fvols, rr, acc =>
+    let vols := fvols.map (·.vol)
     match r with
     | .get h =>
       match stepEvent cHash cSize vols rr (.get h) with
-      | (.get g, vols', rr') => runReqs keys rest vols' rr' ((showGet g false ++ "|" ++ listing keys vols') :: acc)
+      | (.get g, _, rr') => runReqs keys faulty rest fvols rr' ((showGet g false ++ "|" ++ listing keys fvols) :: acc)
       | _ => ["bad-op"]
     | .head h =>
       match stepEvent cHash cSize vols rr (.head h) with
-      | (.head g, vols', rr') => runReqs keys rest vols' rr' ((showGet g true ++ "|" ++ listing keys vols') :: acc)
+      | (.head g, _, rr') => runReqs keys faulty rest fvols rr' ((showGet g true ++ "|" ++ listing keys fvols) :: acc)
       | _ => ["bad-op"]
     | .fault i h c =>
-      if i ≥ vols.length then ["bad-op"] else
+      -- the bytes of a mount with I/O faults are not changed behind the server's back (the Go driver
+      -- could not write there either)
+      if i ≥ vols.length || faulty.getD i true then ["bad-op"] else
       match stepEvent cHash cSize vols rr (.fault i h c) with
-      | (.fault, vols', rr') => runReqs keys rest vols' rr' (("X|" ++ listing keys vols') :: acc)
+      | (.fault, vols', rr') =>
+        let fvols' := rewrap fvols vols'
+        runReqs keys faulty rest fvols' rr' (("X|" ++ listing keys fvols') :: acc)
       | _ => ["bad-op"]
     | .getStarved h =>
       let out := showGet (handleGetEnv cHash cSize { bufOk := false, goneAfter := none } vols h) false
-      runReqs keys rest vols rr ((out ++ "|" ++ listing keys vols) :: acc)
+      runReqs keys faulty rest fvols rr ((out ++ "|" ++ listing keys fvols) :: acc)
     | .putStarved h c =>
+      -- answered before PutBlock is reached: nothing changes (C01_put_env_nobuf_shortbody)
       let (resp, vols', rr') :=
         handlePutEnv cHash cSize { bufOk := false, bodyOk := true, gone := .never } vols rr h c true
-      runReqs keys rest vols' rr' ((showPut resp vols' h ++ "|" ++ listing keys vols') :: acc)
+      let fvols' := rewrap fvols vols'
+      runReqs keys faulty rest fvols' rr' ((showPut resp vols' h ++ "|" ++ listing keys fvols') :: acc)
     | .putShort h c =>
       -- the declared Content-Length (what the 413 test looks at) is one more than the body has
       let (resp, vols', rr') :=
         handlePutEnv cHash cSize { bufOk := true, bodyOk := false, gone := .never } vols rr h
           { c with len := c.len + 1 } true
-      runReqs keys rest vols' rr' ((showPut resp vols' h ++ "|" ++ listing keys vols') :: acc)
+      let fvols' := rewrap fvols vols'
+      runReqs keys faulty rest fvols' rr' ((showPut resp vols' h ++ "|" ++ listing keys fvols') :: acc)
     | .put h c clKnown =>
-      match stepEvent cHash cSize vols rr (.put h c clKnown) with
-      | (.put resp, vols', rr') => runReqs keys rest vols' rr' ((showPut resp vols' h ++ "|" ++ listing keys vols') :: acc)
-      | _ => ["bad-op"]
+      -- PUT over mounts with I/O faults (= handlePut without faults: C01_fault_calm)
+      let (resp, fvols', rr') := handlePutF cHash cSize fvols rr h c clKnown
+      runReqs keys faulty rest fvols' rr' ((showPut resp (fvols'.map (·.vol)) h ++ "|" ++ listing keys fvols') :: acc)
 
 /-! unit-level ops: the byte loops of collision.go and pipe_adapters.go -/
 
@@ -234,8 +292,8 @@ def step (line : String) : String :=
     match (vs.splitOn "/").mapM parseVol, (rs.splitOn ";").mapM parseReq with
     | some vols, some reqs =>
       if vols.length < 1 || vols.length > 3 then "bad-op" else
-      let keys := dedupSorted ((vols.map (·.2)).flatten ++ reqs.map reqHash)
-      ";".intercalate (runReqs keys reqs (vols.map (·.1)) 0 [])
+      let keys := dedupSorted ((vols.map (·.2.1)).flatten ++ reqs.map reqHash)
+      ";".intercalate (runReqs keys (vols.map (·.2.2)) reqs (vols.map (·.1)) 0 [])
     | _, _ => "bad-op"
   | _ => "bad-op"
 
